@@ -683,7 +683,7 @@ impl<'a> Gen<'a> {
         };
         for k in kinds {
             if self.rng.chance(3, 5) {
-                let wrap = Wrap::Plain;
+                let wrap = if *k == MagicKind::Generics { *self.rng.pick(&[Wrap::Plain, Wrap::Plain, Wrap::Spanned, Wrap::WithOriginal, Wrap::Result]) } else { Wrap::Plain };
                 let mut m = Magic {
                     kind: *k,
                     wrap,
@@ -691,7 +691,10 @@ impl<'a> Gen<'a> {
                     field_recv: None,
                     with: false,
                 };
-                if matches!(k, MagicKind::Data | MagicKind::Fields) && self.profile.body_recv {
+                if *k == MagicKind::Data && self.rng.chance(1, 4) {
+                    m.with = true;
+                }
+                if matches!(k, MagicKind::Data | MagicKind::Fields) && self.profile.body_recv && self.rng.chance(2, 3) {
                     if *k == MagicKind::Data {
                         // element receivers: a FromVariant receiver (with its own `fields`) and a FromField receiver
                         let f = self.element_recv(Trait::Field);
